@@ -53,6 +53,9 @@ public:
 	void attach(KSI_CTX *ctx);              // KSI_CTX_setAggregator / setExtender / publications URL
 	void arm(const CallEnv &e) { env = e; env.armed = true; progress_ = 0; replied_ = false; fault_fired = false; }
 	void disarm() { env = CallEnv(); }
+	// a long-lived context: n sign and n extend requests that the servers answer with an error status (request ids above 255
+	// are no longer the context's shared small-integer objects)
+	void warm_up(KSI_CTX *ctx, int n);
 private:
 	size_t progress_ = 0;
 	bool replied_ = false;
